@@ -165,7 +165,9 @@ Merge(cur, inj) ==
 Visited(f, i) == f[i].kind = "field" /\ (DeclShape(f, i) = "top" \/ (DeclShape(f, i) = "grp" /\ GroupFirst(f, i)))
 \* comment.Text matches "@tag (.*)" with a non-empty group (trailing comment only)
 TagComment(f, i) == f[i].ck \in {"inj", "mention"}
-Area(f, i) == [s |-> FieldPos(f, i), e |-> FieldEnd(f, i), cur |-> f[i].tag,
+\* (fix b0c7677: the area is the tag literal itself, field.Tag.Pos() .. field.Tag.End(); before, it started at field.Pos()
+\*  and the pattern could take a back quote of the field's type - an anonymous struct with a tagged inner field)
+Area(f, i) == [s |-> IF f[i].hasTag THEN TagPos(f, i) ELSE FieldPos(f, i), e |-> FieldEnd(f, i), cur |-> f[i].tag,
                inj |-> IF f[i].ck = "inj" THEN f[i].inj ELSE <<>>]
 \* a visited field with an @tag comment but no tag literal: field.Tag is nil
 Untagged(f, i) == Visited(f, i) /\ TagComment(f, i) /\ ~f[i].hasTag
